@@ -348,6 +348,35 @@ def processTx (r : Rules) (h : Handler) (prices : List Nat) (now : Int)
     | (_, .error e) => (cur, .execErr e)
     | (v', .ok res) => (v'.cur, .done res)
 
+/-! ## The block-level layer (`tstate.TState`): view → block diff → parent storage
+
+All transactions of a block share one `TState` over the same parent storage. A view is created
+over the block's visible map (`getValue`: pending → `TState.changedKeys` → storage);
+`TStateView.Commit` publishes the view's pending changes — the keys whose visible value in the
+view differs from the value the view was created over — into `changedKeys`. (That `pending` is
+exactly this difference is C04's invariant.) -/
+structure Block where
+  parent : Store
+  /-- `TState.changedKeys`: `none` = untouched, `some none` = deleted, `some (some v)` = written -/
+  diff : Key → Option (Option Val) := fun _ => none
+
+/-- `TState.getChangedValue` falling back to the parent storage -/
+def Block.visible (b : Block) : Store := fun k =>
+  match b.diff k with
+  | some x => x
+  | none => b.parent k
+
+/-- `TStateView.Commit` of a view whose visible map is `cur` -/
+def Block.commit (b : Block) (cur : Store) : Block :=
+  { b with diff := fun k => if cur k = b.visible k then b.diff k else some (cur k) }
+
+/-- one transaction of a block: view over the block's visible map, commit on success only -/
+def processTxB (r : Rules) (h : Handler) (prices : List Nat) (now : Int)
+    (scope : Key → Nat) (tx : Tx) (b : Block) : Block × Outcome :=
+  match processTx r h prices now scope tx b.visible with
+  | (cur', .done res) => (b.commit cur', .done res)
+  | (_, o) => (b, o)
+
 /-! ## Inclusion decisions (C07) -/
 
 /-- `Builder.BuildBlock` closure: the tx is appended to the block iff `PreExecute` and `Execute`
